@@ -38,7 +38,7 @@ theorem C10_update_keeps_session (s : Sess) (i : Nat) (body : Bytes) (h : s.st =
     UPDATE, NOTIFICATION, KEEPALIVE, ROUTE-REFRESH or unknown message, well-formed or not. -/
 theorem C10_decode_context_stable (s : Sess) (i ty : Nat) (body : Bytes) (hty : ty ≠ 1) (j : Nat) :
     ((dispatch U s i ty body).1.conn j).asn4 = (s.conn j).asn4 :=
-  keeps_dispatch_nonOpen indep_asn4 U s i ty body (by simpa [C.msgOpen] using hty) j
+  keeps_dispatch_nonOpen indep_asn4 indepRecv_asn4 U s i ty body (by simpa [C.msgOpen] using hty) j
 
 theorem reports_emit_report (s : Sess) (o : Out) (h : isReport o = true) :
     reports (s.emit o).outs = reports s.outs + 1 := by
@@ -54,9 +54,9 @@ theorem C10_one_report (s : Sess) (i ty : Nat) (body : Bytes) :
     reports (dispatch U s i ty body).1.outs ≤ reports s.outs + 1 := by
   have hq := reactive_nonReport
   have r_he : ∀ (t : Sess) sub d, reports (t.headerError sub d).outs = reports t.outs :=
-    fun t sub d => reports_of_ext (oe_headerError hq t sub d)
+    fun t sub d => reports_of_ext (oe_headerError t sub d (hq _))
   have r_oe : ∀ (t : Sess) sub, reports (t.openMessageError sub).outs = reports t.outs :=
-    fun t sub => reports_of_ext (oe_openMessageError hq t sub)
+    fun t sub => reports_of_ext (oe_openMessageError t sub (hq _))
   have r_b : ∀ (t : Sess) k g, reports (t.bumpRecv k g).outs = reports t.outs := fun _ _ _ => rfl
   unfold dispatch
   split
@@ -77,25 +77,25 @@ theorem C10_one_report (s : Sess) (i ty : Nat) (body : Bytes) :
             show reports (s.bumpRecv i incOpens).outs ≤ _
             simp only [r_b]; omega
         · split
-          · rw [reports_emit_report _ _ rfl, reports_of_ext (oe_fsmOpenReceived hq _)]
+          · rw [reports_emit_report _ _ rfl, reports_of_ext (oe_fsmOpenReceived _ (hq _))]
             show reports (s.bumpRecv i incOpens).outs + 1 ≤ _
             simp only [r_b]; omega
-          · rw [reports_emit_report _ _ rfl, reports_of_ext (oe_fsmOpenReceived hq _)]
+          · rw [reports_emit_report _ _ rfl, reports_of_ext (oe_fsmOpenReceived _ (hq _))]
             show reports (s.bumpRecv i incOpens).outs + 1 ≤ _
             simp only [r_b]; omega
   · split
     · split
       · simp only [r_b]; omega
       · rw [reports_emit_quiet _ _ rfl]; simp only [r_b]; omega
-      · rw [reports_of_ext (oe_fsmUpdateReceived hq _), reports_emit_report _ _ rfl]; simp only [r_b]; omega
-      · rw [reports_of_ext (oe_fsmUpdateReceived hq _), reports_emit_report _ _ rfl]; simp only [r_b]; omega
+      · rw [reports_of_ext (oe_fsmUpdateReceived _ (hq _)), reports_emit_report _ _ rfl]; simp only [r_b]; omega
+      · rw [reports_of_ext (oe_fsmUpdateReceived _ (hq _)), reports_emit_report _ _ rfl]; simp only [r_b]; omega
     · split
       · split
         · show reports s.outs ≤ _; omega
-        · rw [reports_of_ext (oe_fsmNotificationReceived hq _ _ _), reports_emit_report _ _ rfl]; simp only [r_b]; omega
+        · rw [reports_of_ext (oe_fsmNotificationReceived _ _ _ (hq _)), reports_emit_report _ _ rfl]; simp only [r_b]; omega
       · split
         · split
-          · rw [reports_of_ext (oe_fsmKeepaliveReceived hq _), reports_emit_report _ _ rfl]; simp only [r_b]; omega
+          · rw [reports_of_ext (oe_fsmKeepaliveReceived _ (hq _)), reports_emit_report _ _ rfl]; simp only [r_b]; omega
           · rw [r_he, reports_emit_report _ _ rfl]; simp only [r_b]; omega
         · split
           · split
